@@ -193,6 +193,19 @@ func ZZFollowerNewTerm(n, unsynced int) {
 		vAssert("log-does-not-grow", w.appends == before)
 		_, terr := fc.Truncate(&proto.TruncateRequest{Term: T, HeadEntryId: &proto.EntryId{Term: T, Offset: 0}})
 		vAssert("old-term-truncate-rejected", terr != nil)
+		// the leader of the new term attaches the node (Truncate -> FOLLOWER): a late message of the deposed
+		// leader must still be refused
+		if T2 < 50 {
+			hd := resp.HeadEntryId
+			_, terr = fc.Truncate(&proto.TruncateRequest{Term: T2, HeadEntryId: hd})
+			vAssert("new-leader-attaches", terr == nil && fc.status == proto.ServingStatus_FOLLOWER)
+			w.frozen = false
+			before = w.appends
+			nxt := w.lastAppended + 1
+			aerr = fc.append(&proto.Append{Term: T, Entry: &proto.LogEntry{Term: T, Offset: nxt, Value: []byte{7}}, CommitOffset: -1}, st)
+			vAssert("old-term-append-rejected-while-following-the-new-leader", aerr != nil)
+			vAssert("log-does-not-grow-for-the-old-term", w.appends == before)
+		}
 	}
 	vReach("end")
 }
